@@ -7,7 +7,10 @@ package main
 // discharged by the generator (the goal is a boolean literal), not by an SMT query.
 
 import (
+	"fmt"
 	"go/types"
+	"sort"
+	"strings"
 
 	"golang.org/x/tools/go/ssa"
 )
@@ -359,6 +362,84 @@ func (e *Engine) mergeFlowResult() *FuncResult {
 		ok = ok && n >= 2
 	}
 	ctx.addOblig("flow", "builder.mergeBuilderInto:copied-assignments-are-re-rooted-with-Path.Append", BoolLit(ok), "internal/veneers/builder/rules.go")
+	res.Obligs = ctx.obligs
+	return res
+}
+
+// yamlCarriedResult (C15): the YAML description of a transformation is turned into the pass by an
+// AsCompilerPass method; every field of the YAML struct must be read by that method (a field that is
+// parsed and then ignored makes the transformation silently do something else than configured).
+// Structural obligation over go/ssa, one per (type, field).
+func (e *Engine) yamlCarriedResult() *FuncResult {
+	ctx := newCtx(e, e.anyFunction())
+	ctx.fnKey = "c15-yaml-carried"
+	res := &FuncResult{Key: "c15-yaml-carried", Ctx: ctx}
+	var keys []string
+	for k := range e.fnByKey {
+		keys = append(keys, k)
+	}
+	sort.Strings(keys)
+	n := 0
+	for _, k := range keys {
+		fn := e.fnByKey[k]
+		if !strings.HasPrefix(k, "yaml.") || fn.Name() != "AsCompilerPass" || fn.Signature.Recv() == nil || len(fn.Params) == 0 || fn.Synthetic != "" {
+			continue
+		}
+		rt := fn.Signature.Recv().Type()
+		isPtr := false
+		if p, ok := rt.Underlying().(*types.Pointer); ok {
+			rt = p.Elem()
+			isPtr = true
+		}
+		st, ok := rt.Underlying().(*types.Struct)
+		nt, isNamed := rt.(*types.Named)
+		if !ok || !isNamed || nt.Obj().Name() == "CompilerPass" {
+			continue
+		}
+		recv := fn.Params[0]
+		roots := map[ssa.Value]bool{}
+		whole := false
+		for _, r := range *recv.Referrers() {
+			switch x := r.(type) {
+			case *ssa.Store:
+				if x.Val == ssa.Value(recv) {
+					roots[x.Addr] = true
+				}
+			case *ssa.DebugRef, *ssa.Field, *ssa.FieldAddr:
+			default:
+				whole = true // the receiver is used as a whole (passed on, converted, compared)
+			}
+		}
+		read := map[int]bool{}
+		for _, b := range fn.Blocks {
+			for _, in := range b.Instrs {
+				switch x := in.(type) {
+				case *ssa.Field:
+					if x.X == ssa.Value(recv) {
+						read[x.Field] = true
+					}
+				case *ssa.FieldAddr:
+					if (isPtr && x.X == ssa.Value(recv)) || roots[x.X] {
+						read[x.Field] = true
+					}
+				case *ssa.UnOp:
+					if roots[x.X] {
+						// the local copy of the receiver is loaded as a whole
+						for _, r := range *x.Referrers() {
+							if _, isDbg := r.(*ssa.DebugRef); !isDbg {
+								whole = true
+							}
+						}
+					}
+				}
+			}
+		}
+		for i := 0; i < st.NumFields(); i++ {
+			n++
+			ctx.addOblig("flow", "yaml."+nt.Obj().Name()+".AsCompilerPass:field-"+st.Field(i).Name()+"-is-carried-into-the-pass", BoolLit(whole || read[i]), "internal/yaml/compilerpasses.go")
+		}
+	}
+	ctx.addOblig("flow", "yaml:AsCompilerPass-methods-enumerated", BoolLit(n > 0), fmt.Sprint(n))
 	res.Obligs = ctx.obligs
 	return res
 }
